@@ -187,29 +187,43 @@ def output_probed_with_lstat(ctx, rid):
 # ------------------------------------------------------------------------------------------------
 # R4.7  direct modification = the target's mtime is *different*, not later
 
+def closure_family(prog, body):
+    """body and every closure nested in it (at any depth): a test written as `x.map_or(false, |m| ..)` keeps its
+    comparison in the closure"""
+    pre = body.key + "::{closure"
+    return [body] + [b for k, b in sorted(prog.bodies.items()) if k.startswith(pre)]
+
+
 def direct_modification_is_inequality(ctx, rid):
     ctx.rule(rid, "the direct-modification test (exit 206) compares the target's mtime before and after the script for (in)equality, not with an ordering: a script that writes $1 and leaves an older mtime is still caught")
     prog = ctx.prog
     R = anchors.record_new_state(prog)
-    ba = BA.of(R)
-    mods = ba.calls(r"std::fs::Metadata::modified")
-    if not ctx.floor(rid, "Metadata::modified() calls in record_new_state", len(mods), 2):
-        return
-    tnt = taint(R, seeds={R.blocks[i]["term"]["dest"]["l"] for i in mods}, mode="derived")
+    fam = closure_family(prog, R)
+    nmods = 0
     eq, order = [], []
-    for i in ba.all_calls():
-        t = R.blocks[i]["term"]
-        ps = callee_paths(t)
-        if _tainted_arg(R, ba, t, tnt) is None:
+    for B in fam:
+        ba = BA.of(B)
+        mods = ba.calls(r"std::fs::Metadata::modified")
+        nmods += len(mods)
+        if not mods:
             continue
-        if any(re.fullmatch(r"(core::cmp::PartialEq|<.* as core::cmp::PartialEq(<.*>)?>)::(eq|ne)", p) for p in ps):
-            eq.append(i)
-        elif any(re.fullmatch(r"(core::cmp::PartialOrd|<.* as core::cmp::PartialOrd(<.*>)?>)::(lt|le|gt|ge|partial_cmp)|(core::cmp::Ord|<.* as core::cmp::Ord>)::(cmp|max|min)|std::time::SystemTime::(duration_since|elapsed)|core::cmp::(max|min)", p) for p in ps):
-            order.append(i)
+        tnt = taint(B, seeds={B.blocks[i]["term"]["dest"]["l"] for i in mods}, mode="derived")
+        for i in ba.all_calls():
+            t = B.blocks[i]["term"]
+            ps = callee_paths(t)
+            if _tainted_arg(B, ba, t, tnt) is None:
+                continue
+            if any(re.fullmatch(r"(core::cmp::PartialEq|<.* as core::cmp::PartialEq(<.*>)?>)::(eq|ne)", p) for p in ps):
+                eq.append((B, i))
+            elif any(re.fullmatch(r"(core::cmp::PartialOrd|<.* as core::cmp::PartialOrd(<.*>)?>)::(lt|le|gt|ge|partial_cmp)|(core::cmp::Ord|<.* as core::cmp::Ord>)::(cmp|max|min)|std::time::SystemTime::(duration_since|elapsed)|core::cmp::(max|min)", p) for p in ps):
+                order.append((B, i))
+    if not ctx.floor(rid, "Metadata::modified() calls in record_new_state", nmods, 2):
+        return
     ok = bool(eq) and not order
-    ctx.ob(rid, "%s|mtimes-compared-for-inequality" % R.key, ok, where=ctx.where(R, (order or eq or mods)[0]),
+    wb, wi = (order or eq or [(R, 0)])[0]
+    ctx.ob(rid, "%s|mtimes-compared-for-inequality" % R.key, ok, where=ctx.where(wb, wi),
            detail="before/after mtimes meet in PartialEq::eq/ne" if ok else
-           ("the mtimes are compared with an ordering (%s): a rewritten $1 with an older or equal-ordered mtime passes as unmodified" % common.short(callee_paths(R.blocks[order[0]]["term"])[0]) if order else "no (in)equality comparison of the two mtimes found"))
+           ("the mtimes are compared with an ordering (%s): a rewritten $1 with an older or equal-ordered mtime passes as unmodified" % common.short(callee_paths(wb.blocks[wi]["term"])[0]) if order else "no (in)equality comparison of the two mtimes found"))
 
 
 # ------------------------------------------------------------------------------------------------
@@ -1591,6 +1605,11 @@ def alarm_interrupts_blocking_read(ctx, rid):
                 continue
             n += 1
             inst = [i for i in ba.calls(_SIG_INSTALL) if ba.path([i], [r], incl=True) is not None]
+            # putting the previous handler back (`sigaction(sig, &old)` / `signal(sig, old)` with the value an earlier
+            # installation returned) is not an installation for this read, wherever the loop structure places it
+            prev = taint(b, seeds={b.blocks[i]["term"]["dest"]["l"] for i in ba.calls(_SIG_INSTALL)}, mode="derived")
+            inst = [i for i in inst if not (len(b.blocks[i]["term"]["args"]) > 1 and op_local(b.blocks[i]["term"]["args"][1]) is not None and
+                                            (op_local(b.blocks[i]["term"]["args"][1]) in prev or any(x in prev for x in ba.ref_chain(op_local(b.blocks[i]["term"]["args"][1])))))]
             if not inst:
                 raise AnchorError("%s: %s arms a timer before a blocking read but the handler installation was not found in the same body" % (rid, b.key))
             for k, i in enumerate(inst):
@@ -1919,6 +1938,146 @@ def log_read_tolerates_any_bytes(ctx, rid, body=None, text=None):
                detail="invalid sequences are substituted, never an error" if lossy and not checked else "the bytes read are converted with a checked from_utf8: an invalid sequence is an error again")
 
 
+# ------------------------------------------------------------------------------------------------
+# R17.10 / R1.17 (F-AM)  "not there" includes ENOTDIR wherever a path is stat'ed or resolved for a record
+
+def _mentions_enotdir(body):
+    txt = json_text([st for blk in body.blocks for st in blk["stmts"]])
+    return "ENOTDIR" in txt or "NotADirectory" in txt
+
+
+def stat_treats_enotdir_as_missing(ctx, rid):
+    ctx.rule(rid, "File::read_stamp_st (every stamp redo takes) and state::realdirpath (every name -> record resolution) treat ENOTDIR like NotFound: when a directory on the way to a known file has become a regular file the file is missing - otherwise one such record makes redo-ood / redo-targets / redo-sources, which look at every record, abort without listing anything while redo-ifchange still rebuilds what is out of date")
+    prog = ctx.prog
+    n = 0
+    for q, role in ((r"state::File::read_stamp_st", "stamp"), (r"state::realdirpath", "name")):
+        b = prog.one(q)
+        ba = BA.of(b)
+        # the decision `is this error a plain 'does not exist'`: comparisons with ErrorKind::NotFound in the body or its local helpers
+        bodies = [b] + [prog.bodies[x] for i in ba.all_calls() for x in callee_paths(b.blocks[i]["term"]) if x in prog.bodies and x.startswith("state::")]
+        nf = [bb for bb in bodies if "NotFound" in json_text([st for blk in bb.blocks for st in blk["stmts"]])]
+        if not nf:
+            raise AnchorError("%s: the NotFound test of %s not located" % (rid, b.key))
+        n += 1
+        ok = all(_mentions_enotdir(bb) for bb in nf)
+        ctx.ob(rid, "%s|%s|ENOTDIR-is-missing-too" % (b.key, role), ok, where=b.span,
+               detail="wherever the error is compared with NotFound it is compared with ENOTDIR as well" if ok else
+               "only NotFound counts as missing: lstat(sub/x) with `sub` replaced by a regular file fails with ENOTDIR and the command ends")
+    ctx.floor(rid, "stat / resolve sites examined", n, 2)
+
+
+# ------------------------------------------------------------------------------------------------
+# R15.12 / R7.11  the command line of redo / redo-ifchange reaches the builder unfiltered
+
+_SHRINK = re.compile(r"alloc::vec::Vec::(<.*>::)?(retain|retain_mut|dedup|dedup_by|dedup_by_key|drain|truncate|remove|swap_remove|pop|clear|split_off)"
+                     r"|core::iter::traits::iterator::Iterator::(filter|filter_map|skip_while|take_while|step_by)|itertools::.*::(unique|unique_by|dedup)")
+
+
+def arguments_reach_builder_unfiltered(ctx, rid):
+    ctx.rule(rid, "redo-ifchange and redo hand every target named on their command line to builder::run (and redo-ifchange to the add_dep loop): nothing shrinks or filters the argument vector on the way - two spellings are the same target only if they map to the same *record* (the builder folds by record id after File::from_name); a lexical de-duplication drops `link/../a` (really d/a) as a repeat of `a`, which is then neither built nor recorded as a dependency")
+    prog = ctx.prog
+    n = 0
+    for q in (r"@bin::ifchange::run", r"@bin::run_redo"):
+        b = prog.one(q)
+        ba = BA.of(b)
+        # the argument vector: what the Vec::push of the parsed arguments fills (direct flow from env::args_os)
+        args = ba.calls(r"std::env::args_os|std::env::args|clap::args::arg_matches::ArgMatches(::<.*>)?::values_of(_os|_lossy)?")
+        if not args:
+            raise AnchorError("%s: %s does not read its arguments" % (rid, b.key))
+        at = taint(b, seeds={b.blocks[c]["term"]["dest"]["l"] for c in args}, mode="derived")
+        vecs = set()
+        for i in ba.calls(r"alloc::vec::Vec::(<.*>::)?push"):
+            t = b.blocks[i]["term"]
+            v = op_local(t["args"][1]) if len(t["args"]) > 1 else None
+            if v is not None and (v in at or any(x in at for x in ba.ref_chain(v))):
+                vecs.add(ba.base_local_of_ref(op_local(t["args"][0])))
+        coll = ba.calls(r".*::collect")
+        for i in coll:
+            t = b.blocks[i]["term"]
+            if any(op_local(a) is not None and op_local(a) in at for a in t["args"]):
+                vecs.add(t["dest"]["l"])
+        if not vecs:
+            raise AnchorError("%s: the argument vector of %s not located" % (rid, b.key))
+        n += 1
+        vt = taint(b, seeds=vecs, mode="direct")
+        bad = []
+        for i in ba.all_calls():
+            t = b.blocks[i]["term"]
+            if not any(_SHRINK.fullmatch(p_) for p_ in callee_paths(t)):
+                continue
+            a0 = op_local(t["args"][0]) if t.get("args") else None
+            if a0 is not None and (a0 in vt or any(x in vt for x in ba.ref_chain(a0)) or ba.base_local_of_ref(a0) in vecs):
+                bad.append(i)
+        ctx.ob(rid, "%s|argument-vector-never-shrunk" % b.key, not bad, where=ctx.where(b, bad[0]) if bad else b.span,
+               detail="every argument reaches the builder" if not bad else
+               "%s removes entries from the argument vector before the builder has mapped them to records" % common.short(callee_paths(b.blocks[bad[0]]["term"])[0]))
+    ctx.floor(rid, "commands examined", n, 2)
+
+
+# ------------------------------------------------------------------------------------------------
+# R3.14 / R14.9 / R7.12  both phases of redo-unlocked are *conditional* builds
+
+def unlocked_phases_are_conditional(ctx, rid):
+    ctx.rule(rid, "redo-unlocked starts redo-ifchange in both phases (the program name of every Command it spawns ends in `redo-ifchange`): a forced `redo` of the uncertain dependencies rebuilds them once per waiting dependent - a redo-always + redo-stamp target several times per run at -j>1 - and defeats the checksum cut-off the out-of-band pass exists for")
+    prog = ctx.prog
+    b = prog.one(r"@bin::unlocked::run")
+    ba = BA.of(b)
+    news = ba.calls(r"std::process::Command::new")
+    ctx.floor(rid, "commands spawned by redo-unlocked", len(news), 2)
+    for k, i in enumerate(news):
+        t = b.blocks[i]["term"]
+        nm = const_str(t["args"][0]) if t.get("args") else None
+        if nm is None and t.get("args") and op_local(t["args"][0]) is not None:
+            lits, _ = _str_lit_taint(b)
+            l0 = op_local(t["args"][0])
+            for s_, locs in lits.items():
+                if l0 in locs or any(x in locs for x in ba.ref_chain(l0)):
+                    nm = s_ if nm is None or len(s_) > len(nm) else nm
+        ok = bool(nm) and nm.endswith("redo-ifchange")
+        ctx.ob(rid, "%s|command#%d|is-redo-ifchange" % (b.key, k), ok, where=ctx.where(b, i),
+               detail="spawns %s" % nm if ok else "spawns %r: not the conditional builder" % nm)
+
+
+# ------------------------------------------------------------------------------------------------
+# R8.13  JobServer::setup gets the -j value the user gave
+
+def setup_gets_the_validated_jobs_value(ctx, rid):
+    ctx.rule(rid, "`redo -jN`: the value handed to JobServer::setup is the very value that was parsed and range-checked, not a remapped one - setup gives 0 (join the parent's jobserver) and 1 (serialise this subtree with a one-token jobserver of its own) different meanings, so `-j1` folded into 0 lets a `redo -j1` below a parallel build start as many jobs at once as the parent has free tokens")
+    prog = ctx.prog
+    cands = [x for k_, x in sorted(prog.bodies.items()) if k_.startswith("@bin::run_redo") and BA.of(x).calls(r"jobserver::JobServer::setup")]
+    if len(cands) != 1:
+        raise AnchorError("%s: the body of `redo` that calls JobServer::setup not located (%d)" % (rid, len(cands)))
+    b = cands[0]
+    ba = BA.of(b)
+    su = ba.calls(r"jobserver::JobServer::setup")
+    from core import op_place
+
+    def cell(l):
+        """the memory cell an integer temporary is a copy of: a local, or a captured variable (`*(_1.k)`)"""
+        r = common.int_root(b, l)
+        d = ba.single_def(r)
+        if d and d[0] == "stmt" and d[3]["k"] == "use" and op_place(d[3]["op"]) is not None and op_place(d[3]["op"])["p"]:
+            return common.place_key(b, op_place(d[3]["op"]))
+        return (r, ())
+    checked = set()
+    for blk in b.blocks:
+        for st in blk["stmts"]:
+            if st["s"] == "assign" and st["rv"]["k"] == "binop" and st["rv"]["op"] in ("Gt", "Ge", "Lt", "Le"):
+                for side, other in (("a", "b"), ("b", "a")):
+                    c = const_int(st["rv"][other])
+                    l = op_local(st["rv"][side])
+                    if c is not None and c >= 100 and l is not None:
+                        checked.add(cell(l))
+    if not checked:
+        raise AnchorError("%s: the range check of --jobs in %s not located" % (rid, b.key))
+    for k, i in enumerate(su):
+        a0 = op_local(b.blocks[i]["term"]["args"][0])
+        root = cell(a0) if a0 is not None else None
+        ok = root in checked
+        ctx.ob(rid, "%s|setup#%d|receives-the-checked-value" % (b.key, k), ok, where=ctx.where(b, i),
+               detail="JobServer::setup(j) with the parsed and range-checked j" if ok else "the -j value is remapped between its range check and JobServer::setup")
+
+
 _BORROW_CACHE = {}
 
 
@@ -1964,7 +2123,7 @@ TABLE = {
             ("R2.8", borrow("C03", "R3.2", None, "a build wrongly taken for a stamped one never advances changed_runid: the target and its dependents then re-run on every later redo-ifchange"))],
     "C13": [("R13.10", shebang_read_tolerates_any_bytes), ("R13.6", every_candidate_leaves_an_edge), ("R13.7", check_never_refreshes_stamps),
             ("R13.8", borrow("C02", "R2.3", r"^(add_dep\||sql-literals-found)", "a must-not-exist edge for a higher-priority .do candidate has to replace last build's row (and clear its deletion mark), or it is swept after the second build and a new candidate is never noticed"))],
-    "C03": [("R3.12", memo_after_failed_test), ("R3.13", stamped_mark_is_build_specific), ("R3.9", signal_death_is_failure), ("R3.10", uncertain_is_not_built_directly), ("R3.11", stamp_reads_to_eof)],
+    "C03": [("R3.14", unlocked_phases_are_conditional), ("R3.12", memo_after_failed_test), ("R3.13", stamped_mark_is_build_specific), ("R3.9", signal_death_is_failure), ("R3.10", uncertain_is_not_built_directly), ("R3.11", stamp_reads_to_eof)],
     "C05": [("R5.8", signal_death_is_failure),
             ("R5.9", borrow("C01", "R1.3", None, "the edge to a requested target must exist even when that target then fails, or the caller is not dirty next run and the failed target is never retried")),
             ("R5.10", memo_after_failed_test), ("R5.12", callback_error_keeps_cause), ("R5.13", flags_exported_only_when_set),
@@ -1979,29 +2138,30 @@ TABLE = {
     "C06": [("R6.9", verdict_only_under_lock), ("R6.10", lock_file_opened_once),
             ("R6.12", borrow("C15", "R15.2", None, "the lock id is the id of the record a spelling maps to: a relpath that skips symlink resolution (a lexical fast path) gives one file reached through a symlinked directory two records and two lock bytes, and two commands run its .do at the same time")),
             ("R6.11", borrow("C15", "R15.9", None, "the lock id is the id of the record the name maps to: a directory spelling that is not resolved (a lexical shortcut, or a directory that does not exist yet) gives the same file a second record and a second lock, and two commands run its .do at the same time"))],
-    "C07": [("R7.5", verdict_only_under_lock), ("R7.8", lock_file_opened_once),
+    "C07": [("R7.13", borrow("C14", "R14.3", None, "an always-target is rebuilt once per run however many dependents ask for it only if every redo-always re-stamps the shared //ALWAYS row: with the row left unstamped each further requester finds the target dirty again")),
+            ("R7.11", arguments_reach_builder_unfiltered), ("R7.12", unlocked_phases_are_conditional), ("R7.5", verdict_only_under_lock), ("R7.8", lock_file_opened_once),
             ("R7.10", borrow("C15", "R15.2", None, "two spellings of one target are folded by record: a relpath that skips symlink resolution gives the file a second record, and one run builds it twice")),
             ("R7.9", borrow("C15", "R15.9", None, "two spellings of one target on a command line (or from two dependents) are folded by record id: a spelling whose directory is not resolved gets a record of its own and the target is built twice in the run")),
             ("R7.6", borrow("C02", "R2.3", r"marked-edges-still-listed", "while a target is being rebuilt its marked edges are the only record of why it is dirty: a dependent evaluated by a parallel job must still see them")),
             ("R7.7", borrow("C13", "R13.3", r"^[^|]*\|\$3=", "two targets of one default.*.do that differ only in the matched extension must not share a temp output name when built in parallel"))],
-    "C08": [("R8.10", cheat_pipe_only_for_j0)],
+    "C08": [("R8.10", cheat_pipe_only_for_j0), ("R8.13", setup_gets_the_validated_jobs_value)],
     "C01": [("R1.9", check_never_refreshes_stamps), ("R1.14", stamped_mark_is_build_specific), ("R1.15", set_failed_records_file_as_it_is),
             ("R1.16", every_candidate_leaves_an_edge),
             ("R1.11", borrow("C15", "R15.2", None, "the builder records the new stamp on the record the requested spelling maps to, the .do's own redo-ifchange records its source edges on the record of $REDO_PWD/$REDO_TARGET: unless both spellings are resolved to one record the stamped record never sees a source change and redo-ifchange exits 0 with the target stale")),
             ("R1.12", borrow("C02", "R2.2", None, "the edges of the previous build are deleted only when the new result is recorded (second phase): deleted up front, a build killed before its .do re-declares them leaves a target with no reason to be dirty")),
             ("R1.13", borrow("C02", "R2.1", None, "first phase: old edges are only marked before the .do search and the fork")),
             ("R1.10", borrow("C02", "R2.3", r"marked-edges-still-listed", "after an interrupted rebuild the marked edges are the only reason the target is dirty"))],
-    "C14": [("R14.8", add_dep_replaces_unconditionally),
+    "C14": [("R14.9", unlocked_phases_are_conditional), ("R14.8", add_dep_replaces_unconditionally),
             ("R14.7", borrow("C02", "R2.3", r"^(add_dep\||sql-literals-found)", "a re-declared ifcreate edge must replace last build's row and clear its deletion mark")),
             ("R14.6", borrow("C02", "R2.3", r"marked-edges-still-listed", "an ifcreate / always edge of an interrupted rebuild must still make the target dirty"))],
     "C09": [("R9.10", probe_forks_while_owning), ("R9.11", alarm_interrupts_blocking_read),
             ("R9.8", borrow("C12", "R12.2", None, "a lock id that is not registered turns a cycle into an endless fcntl wait")),
             ("R9.9", borrow("C08", "R8.1", None, "a counter written outside the accounting functions breaks the top-level self-test: an all-success build exits 1"))],
-    "C17": [("R17.6", ood_lists_every_nonclean), ("R17.7", check_never_refreshes_stamps), ("R17.9", listing_never_creates_state)],
+    "C17": [("R17.6", ood_lists_every_nonclean), ("R17.7", check_never_refreshes_stamps), ("R17.9", listing_never_creates_state), ("R17.10", stat_treats_enotdir_as_missing)],
     "C18": [("R18.7", done_status_type_agrees), ("R18.8", seen_only_when_shown), ("R18.9", record_after_partial_line),
             ("R18.10", record_names_relative_to_target_dir), ("R18.11", non_record_line_echoed_whole),
             ("R18.12", follower_reads_after_probe), ("R18.13", parse_keeps_text_verbatim), ("R18.14", record_content_never_panics), ("R18.15", log_read_tolerates_any_bytes)],
-    "C15": [("R15.7", key_never_bypasses_relpath), ("R15.8", relpath_is_componentwise)],
+    "C15": [("R15.12", arguments_reach_builder_unfiltered), ("R15.7", key_never_bypasses_relpath), ("R15.8", relpath_is_componentwise)],
     "C10": [("R10.12", borrow("C04", "R4.4", r"tmp-name|same-tmp", "the stale-output removal before the fork must name the same file the script will be told to write ($3, beside the target): removing another path leaves the half-written output of a killed build in place, to be taken for this build's output")),
             ("R10.8", rename_inside_result_transaction), ("R10.14", schema_created_inside_transaction), ("R10.13", tmp_removal_copes_with_directory), ("R10.10", interrupted_creation_is_recoverable), ("R10.11", failed_marker_not_cleared_at_start),
             ("R10.9", borrow("C05", "R5.3", None, "a job that dies (non-zero or by signal) has its un-redeclared edges deleted by zap_deps2, so it must be marked failed in the same transaction or it looks clean after the kill"))],
